@@ -574,6 +574,8 @@ class Scaling(Interp):
             return unk(f"{which} of {target.show()}")
         if target.kind == "det":
             return target
+        if target.kind == "db" and which in ("mean", "sum", "median"):
+            self.definite.append(f"`{unparse(node)[:70]}` takes the {which} of decibel values: the average of per-row dB figures is not the dB figure of the pooled power ratio (rows of unequal power: 10 dB from 20 dB and 0 dB rows is not 10*log10 of the pooled ratio), so the result is not the SNR of the data")
         return unk(f"{which} of {target.show()}")
 
     def call_repo(self, callee: FuncInfo, args: List[SV], kw: Dict[str, SV], bound: bool) -> SV:
